@@ -223,15 +223,16 @@ S_Detach ==
 S_DbDel ==
     /\ Running /\ mv.spc = "dbdel" /\ up[Src]
     /\ db' = [db EXCEPT ![Src] = Del(@, M)]
-    /\ rsv' = [rsv EXCEPT ![Src] = @ \ {M}]
     /\ mv' = [mv EXCEPT !.spc = "rel"]
-    /\ UNCHANGED <<cfg, up, reg, avail, disk, orph, gh>>
+    /\ UNCHANGED <<cfg, up, reg, avail, disk, rsv, orph, gh>>
 
 S_Rel ==
     /\ Running /\ mv.spc = "rel" /\ up[Src]
     /\ avail' = [avail EXCEPT ![Src] = @ \cup {mv.oport}]
+    \* (the id stays reserved until the removed torrent is closed: repair of round 4, see Session!RemRelease)
+    /\ rsv' = [rsv EXCEPT ![Src] = @ \ {M}]
     /\ mv' = [mv EXCEPT !.spc = "done", !.res = "ok", !.oport = 0]
-    /\ UNCHANGED <<cfg, up, reg, db, disk, rsv, orph, gh>>
+    /\ UNCHANGED <<cfg, up, reg, db, disk, orph, gh>>
 
 S_Fail ==
     /\ Running /\ mv.spc = "fail" /\ up[Src]
@@ -287,16 +288,16 @@ T_Dup ==
 T_DupDb ==
     /\ T("dup_db")
     /\ db' = [db EXCEPT ![Dst] = Del(@, M)]
-    /\ rsv' = IF Fixed("reserve") THEN rsv ELSE [rsv EXCEPT ![Dst] = @ \ {M}]
     /\ mv' = [mv EXCEPT !.tpc = "dup_rel"]
-    /\ UNCHANGED <<cfg, up, reg, avail, disk, orph, gh>>
+    /\ UNCHANGED <<cfg, up, reg, avail, disk, rsv, orph, gh>>
 
 T_DupRel ==
     /\ T("dup_rel")
     /\ avail' = [avail EXCEPT ![Dst] = @ \cup {mv.oport}]
     /\ disk' = [disk EXCEPT ![Dst] = Del(@, M)]
+    /\ rsv' = IF Fixed("reserve") THEN rsv ELSE [rsv EXCEPT ![Dst] = @ \ {M}]
     /\ mv' = [mv EXCEPT !.tpc = "meta", !.oport = 0]
-    /\ UNCHANGED <<cfg, up, reg, db, rsv, orph, gh>>
+    /\ UNCHANGED <<cfg, up, reg, db, orph, gh>>
 
 T_Meta ==
     /\ T("meta")
